@@ -585,6 +585,15 @@ func flowForgedOwner(r *Recorder, accts []*Account) {
 	r.UpdatePermission(m.gw, &saotypes.MsgUpdataPermission{Creator: m.gw.Bech(), Proposal: pp, JwsSignature: SignJWS(&pp, forger.key, forger.kid), Provider: m.gw.Bech()})
 	rp := saotypes.RenewProposal{Owner: o.did, Duration: 3600, Timeout: 10, Data: []string{dataA}}
 	r.Renew(m.gw, &saotypes.MsgRenew{Creator: m.gw.Bech(), Proposal: rp, JwsSignature: SignJWS(&rp, forger.key, forger.kid), Provider: m.gw.Bech()})
+	// the owner grants read-write access to a grantee; the grantee may update content and terminate, not hand out access
+	grantee := m.owners[1]
+	gp := saotypes.PermissionProposal{Owner: o.did, DataId: dataA, ReadwriteDids: []string{grantee.did}}
+	r.UpdatePermission(m.gw, &saotypes.MsgUpdataPermission{Creator: m.gw.Bech(), Proposal: gp, JwsSignature: SignJWS(&gp, o.key, o.kid), Provider: m.gw.Bech()})
+	gp2 := saotypes.PermissionProposal{Owner: grantee.did, DataId: dataA, ReadwriteDids: []string{grantee.did, forger.did}}
+	r.UpdatePermission(m.gw, &saotypes.MsgUpdataPermission{Creator: m.gw.Bech(), Proposal: gp2, JwsSignature: SignJWS(&gp2, grantee.key, grantee.kid), Provider: m.gw.Bech()})
+	gp3 := saotypes.PermissionProposal{Owner: o.did, DataId: dataA, ReadwriteDids: []string{grantee.did, forger.did}}
+	r.UpdatePermission(m.gw, &saotypes.MsgUpdataPermission{Creator: m.gw.Bech(), Proposal: gp3, JwsSignature: SignJWS(&gp3, grantee.key, grantee.kid), Provider: m.gw.Bech()})
+	r.UpdatePermission(m.gw, &saotypes.MsgUpdataPermission{Creator: m.gw.Bech(), Proposal: saotypes.PermissionProposal{Owner: o.did, DataId: dataA}, JwsSignature: SignJWS(&saotypes.PermissionProposal{Owner: o.did, DataId: dataA}, o.key, o.kid), Provider: m.gw.Bech()})
 	r.EndBlock()
 	r.BeginBlock()
 	m.store(forger, dataA, dataA+"|bbbbbbbb-comm-4000-8000-00000000000b", 1, 1000000, 1, 3600, 100)
@@ -1062,7 +1071,9 @@ func flowRenewedVersions(r *Recorder, accts []*Account) {
 	m.renew(o, dataA, 4000)
 	r.EndBlock()
 	r.BeginBlock()
-	m.store(o, dataA, c2+"|"+cx, 1, 1000000, 1, 3600, 100)
+	up := m.w.proposal(o, m.gw, dataA, c2+"|"+cx, 1, 1000000, 1, 3600, 100)
+	up.Cid = goodCid2 // other content than the committed version: the rollback must bring the committed content id back
+	r.Store(m.gw, &saotypes.MsgStore{Creator: m.gw.Bech(), Proposal: up, JwsSignature: SignJWS(&up, o.key, o.kid), Provider: m.gw.Bech()})
 	r.EndBlock()
 	r.BeginBlock()
 	r.Cancel(m.gw, m.gw.Bech(), lastOrder())
@@ -1156,6 +1167,10 @@ func flowRenewManyPoor(r *Recorder, accts []*Account) {
 	r.Renew(m.gw, &saotypes.MsgRenew{Creator: m.gw.Bech(), Proposal: rp, JwsSignature: SignJWS(&rp, o.key, o.kid), Provider: m.gw.Bech()})
 	r.EndBlock()
 	r.Blocks(2)
+	r.BeginBlock()
+	rp2 := saotypes.RenewProposal{Owner: o.did, Duration: 14400, Timeout: 10, Data: []string{dataA}}
+	r.Renew(m.gw, &saotypes.MsgRenew{Creator: m.gw.Bech(), Proposal: rp2, JwsSignature: SignJWS(&rp2, o.key, o.kid), Provider: m.gw.Bech()}) // the provider already owes: the debts add up
+	r.EndBlock()
 	r.BeginBlock()
 	for _, d := range []string{dataA, dataB} {
 		tp := saotypes.TerminateProposal{Owner: o.did, DataId: d}
